@@ -269,6 +269,7 @@ pub fn suite(kind: &'static str, prop: &str, tier: &str, seed: u64) -> Report {
     let mut rep = Report::new();
     let f = fmt_of(kind);
     let all = prop == "all";
+    start_watchdog(30);
     let docs = base_docs(kind);
     let scheds = [ONE_SHOT, Sched { chunk: 1, mode: Mode::Step(1), fail_at: None, interrupt: 0 }, Sched { chunk: 5, mode: Mode::Step(8), fail_at: None, interrupt: 0 }];
     let mut layouts: Vec<Layout> = vec![];
@@ -496,6 +497,7 @@ pub fn satlog_suite(prop: &str, tier: &str, seed: u64) -> Report {
     if !(prop == "all" || prop == "C07") {
         return rep;
     }
+    start_watchdog(30);
     let strict = FORMATS.iter().find(|f| f.name == "satlog").unwrap();
     let ign = FORMATS.iter().find(|f| f.name == "satlog_ign").unwrap();
     let scheds = [ONE_SHOT, Sched { chunk: 1, mode: Mode::Step(1), fail_at: None, interrupt: 0 }, Sched { chunk: 16384, mode: Mode::Lines, fail_at: None, interrupt: 0 }];
